@@ -1,7 +1,7 @@
 import abc
 
 import random
-from typing import Iterator
+from typing import Any, Iterator
 
 from job_shop_lib import JobShopInstance
 from job_shop_lib.exceptions import UninitializedAttributeError
@@ -62,7 +62,13 @@ class InstanceGenerator(abc.ABC):
         if isinstance(num_machines, int):
             num_machines = (num_machines, num_machines)
         if seed is not None:
+            # Kept for subclasses that use the module-level functions.
             random.seed(seed)
+        # A seeded generator owns its random number generator, so that its
+        # sequence depends only on the seed and not on other generators or
+        # other users of the ``random`` module. Without a seed, the shared
+        # module-level generator is used, as before.
+        self._rng: Any = random.Random(seed) if seed is not None else random
 
         self.num_jobs_range = num_jobs
         self.num_machines_range = num_machines
